@@ -32,7 +32,14 @@ claim("C01", "LeastSquares",
       "Decides the property on exact lattice instances with condition numbers up to ~1e4; condition numbers 1e4..1e10 are floating-point error analysis and are not decided (DESIGN §6). Trusted: TLC, Fraction division.",
       "DESIGN.md §5 C01")
 
+claim("C09", "ClpLink",
+      "TLA+ spec ClpLink.tla (one action per point / per dataset, nondeterministic ties) model-checked exhaustively by TLC with the property's clauses as invariants; every terminal state emitted; the real alignment code must land in the allowed set (unit level exhaustive, end-to-end sample through real schemes and optimize)",
+      "Exhaustive exploration of all axis sets of 2 datasets (3 in thorough) with up to 3-4 points on a half-step grid, tolerances 0/below/at/above the spacing, all three methods; the implementation's assignment, stacked data/indices/weights, clp sharing in results and AlignDatasetError are compared with the specification's allowed outcomes.",
+      "Ties may be resolved either way (D3). Axes strictly increasing. Unit level sets the provider's axes directly. Larger axes only in thorough/simulate. Trusted: TLC, Json module.",
+      "DESIGN.md §5 C09")
+
 ENGINES = [
+    {"name": "ClpLink", "path": "spec/ClpLink.tla", "serves_properties": ["C09", "C02"], "kind_free_text": "TLA+ alignment state machine + ClpLinkEmit; harness/c09.py, harness/lattice.py"},
     {"name": "LeastSquares", "path": "spec/LeastSquares.tla", "serves_properties": ["C01"], "kind_free_text": "TLA+ exact oracle over fraction-free integer linear algebra (LinAlg.tla) + LeastSquaresEmit; harness/c01.py"},
     {"name": "Registry", "path": "spec/Registry.tla", "serves_properties": ["C19"], "kind_free_text": "TLA+ state machine + RegistryEmit (edge emission) + RegistryTrace (trace acceptor); harness/c19.py"},
 ]
